@@ -1,4 +1,4 @@
--- FALLBACK copy (tools/gotolean refused the current util.go): the translation of the pinned util.go, kept so that the project builds; `translated = false` says the tie is by correspondence only.
+-- FALLBACK copy (tools/gotolean refused the current util.go): the translation of the pinned sources, kept so that the project builds; the flags say that the tie is by correspondence only.
 import Jmes.Slice
 namespace Jmes.GenSlice
 open Jmes.Slice (wrap64)
@@ -247,5 +247,21 @@ def slice {α : Type} (fuel : Nat) (xs : List α) (parts : List SliceParam) : Re
       if (decide (step > (0 : Int))) = true then sliceLoop1 xs start stop step fuel start
       else sliceLoop2 xs start stop step fuel start
     | _, _, _ => .panic "util.go: computed[k] index out of range"
+
+/-- interpreter.go, `case ASTIndex:` on a `[]interface{}` of length `length`: the selected position, `none` = null -/
+def indexTranslated : Bool := false
+
+def indexSel (length : Int) (index : Int) : Option Int :=
+  if (decide (index < (0 : Int))) = true then
+    let index := (wrap64 (index + length))
+    if ((decide (index < length)) && (decide (index ≥ (0 : Int)))) = true then
+      some index
+    else
+      none
+  else
+    if ((decide (index < length)) && (decide (index ≥ (0 : Int)))) = true then
+      some index
+    else
+      none
 
 end Jmes.GenSlice
